@@ -100,6 +100,50 @@ def run_check(ctx):
             if len(samples) < 6: samples.append({'build': kind, 'op': line, 'api_value': out})
             if got != exp:
                 mism.append({'build': kind, 'op': line, 'api': out, 'extracted_literal': pay})
+    # --- the arkworks trait constants (PrimeField / FftField associated constants) and the remaining inherent constants, recomputed
+    #     from the modulus alone (number theory in Python): the trait view must agree with the inherent constants and with the modulus
+    TRAIT = [('MODULUS_MINUS_ONE_DIV_TWO', 'MODULUS_MINUS_ONE_DIV_TWO_LIMBS'), ('TRACE', 'TRACE_LIMBS'), ('TRACE_MINUS_ONE_DIV_TWO', 'TRACE_MINUS_ONE_DIV_TWO_LIMBS'),
+             ('TWO_ADICITY', 'TWO_ADICITY'), ('TWO_ADIC_ROOT_OF_UNITY', 'TWO_ADIC_ROOT_OF_UNITY'), ('GENERATOR', 'MULTIPLICATIVE_GENERATOR'), ('MODULUS_BIT_SIZE', 'MODULUS_BIT_SIZE')]
+    def lim(v, n): return ','.join('%x' % ((v >> (64 * i)) & (2**64 - 1)) for i in range(n))
+    try:
+        script = []
+        for f in ('fq', 'fr', 'fp'):
+            for tn, inh in TRAIT: script += ['%s.ark.const.%s' % (f, tn), '%s.const.%s' % (f, inh)]
+            script += ['%s.ark.const.%s' % (f, x) for x in ('LARGE_SUBGROUP_ROOT_OF_UNITY', 'SMALL_SUBGROUP_BASE', 'SMALL_SUBGROUP_BASE_ADICITY', 'SQRT_PRECOMP')]
+        script += ['fp.const.QUADRATIC_NON_RESIDUE', 'fq.const.ZETA', 'fq.const.SENTINEL']
+        outs = dict(zip(script, harness.run_script('ark', script))); neval += len(script)
+        mo = dict(zip(['fp.const.QUADRATIC_NON_RESIDUE', 'fq.const.ZETA', 'fq.const.SENTINEL'], harness.run_script('min', ['fp.const.QUADRATIC_NON_RESIDUE', 'fq.const.ZETA', 'fq.const.SENTINEL'])))
+        def bad(op, got, why): ctx.violation('API constant %s = %s: %s' % (op, got[:100], why), {'stage': 'search', 'script': [op], 'output': [got]}, {'stage': 'api_constant', 'op': op}, found_input=True)
+        for f in ('fq', 'fr', 'fp'):
+            m = MOD[f]; nl = NL[f]; s2 = ((m - 1) & -(m - 1)).bit_length() - 1; t = (m - 1) >> s2
+            exp = {'MODULUS_MINUS_ONE_DIV_TWO': lim((m - 1) // 2, nl), 'TRACE': lim(t, nl), 'TRACE_MINUS_ONE_DIV_TWO': lim((t - 1) // 2, nl), 'TWO_ADICITY': str(s2), 'MODULUS_BIT_SIZE': str(m.bit_length())}
+            for tn, inh in TRAIT:
+                a = outs['%s.ark.const.%s' % (f, tn)]; b = outs['%s.const.%s' % (f, inh)]
+                if a != b: bad('%s.ark.const.%s' % (f, tn), a, 'differs from the inherent constant %s = %s' % (inh, b[:80]))
+                if tn in exp and a != exp[tn]: bad('%s.ark.const.%s' % (f, tn), a, 'recomputed from the modulus: %s' % exp[tn])
+            try:
+                g = int(outs['%s.ark.const.GENERATOR' % f], 16); w = int(outs['%s.ark.const.TWO_ADIC_ROOT_OF_UNITY' % f], 16)
+                if w != pow(g, t, m): bad('%s.ark.const.TWO_ADIC_ROOT_OF_UNITY' % f, '%x' % w, 'is not GENERATOR^TRACE')
+            except ValueError: bad('%s.ark.const.GENERATOR' % f, outs['%s.ark.const.GENERATOR' % f], 'unparsable')
+            for x in ('LARGE_SUBGROUP_ROOT_OF_UNITY', 'SMALL_SUBGROUP_BASE', 'SMALL_SUBGROUP_BASE_ADICITY'):
+                if outs['%s.ark.const.%s' % (f, x)] != 'NONE': bad('%s.ark.const.%s' % (f, x), outs['%s.ark.const.%s' % (f, x)], 'the fields declare no small subgroup')
+            sp = outs['%s.ark.const.SQRT_PRECOMP' % f]
+            if m % 4 == 3: want = 'Case3Mod4 modulus_plus_one_div_four=' + lim((m + 1) // 4, nl)
+            else:
+                q2t = outs.get('%s.const.QUADRATIC_NON_RESIDUE_TO_TRACE' % f) or harness.run_script('ark', ['%s.const.QUADRATIC_NON_RESIDUE_TO_TRACE' % f])[0]
+                want = 'TonelliShanks two_adicity=%d quadratic_nonresidue_to_trace=%s trace_of_modulus_minus_one_div_two=%s' % (s2, q2t, lim((t - 1) // 2, nl))
+            if sp != want: bad('%s.ark.const.SQRT_PRECOMP' % f, sp, 'expected %s' % want)
+        for bname, oo in (('ark', outs), ('min', mo)):
+            try:
+                qnr = int(oo['fp.const.QUADRATIC_NON_RESIDUE'], 16); mp = MOD['fp']
+                if pow(qnr, (mp - 1) // 2, mp) != mp - 1: bad('fp.const.QUADRATIC_NON_RESIDUE', oo['fp.const.QUADRATIC_NON_RESIDUE'], 'is a square (build %s)' % bname)
+                mq = MOD['fq']; z = int(oo['fq.const.ZETA'], 16)
+                if pow(z, (mq - 1) // 2, mq) != mq - 1 or pow(z, 1 << 47, mq) != 1 or pow(z, 1 << 46, mq) == 1: bad('fq.const.ZETA', oo['fq.const.ZETA'], 'is not a primitive 2^47-th root of unity / non-square (build %s)' % bname)
+                if oo['fq.const.SENTINEL'] not in ('UNSUPPORTED',) and int(oo['fq.const.SENTINEL'], 16) != (2**256 - 1) * pow(2**256, -1, mq) % mq:
+                    bad('fq.const.SENTINEL', oo['fq.const.SENTINEL'], 'is not the all-ones Montgomery pattern (build %s)' % bname)
+            except ValueError: bad('fp.const.QUADRATIC_NON_RESIDUE', str(oo)[:80], 'unparsable (build %s)' % bname)
+    except RuntimeError as e:
+        ctx.violation('harness build/run failed: %s' % str(e)[:500], {'stage': 'harness', 'log': str(e)[-3000:]}, {'stage': 'harness'}, found_input=False)
     ctx.cov['evaluations'] = neval
     ctx.cov['distinct_nontrivial'] = len({(s) for s in range(neval)}) if neval else 0
     ctx.cov['rule'] = 'every public field constant printed through the API of both builds and compared with the literal the extractor found; all are distinct and non-trivial (none is 0/1)'
